@@ -300,6 +300,7 @@ type plainRecv struct {
 	gateIn        chan struct{}
 	gateOut       chan struct{}
 	target        *actor.PID // for the forwarding actor
+	fwdTo         *actor.PID // relay target (Context.Forward)
 }
 
 func (p *plainRecv) progress() int64 { return atomic.LoadInt64(&p.delivered) }
@@ -317,6 +318,11 @@ func (p *plainRecv) Receive(c *actor.Context) {
 		close(p.gateIn)
 		<-p.gateOut
 	case *tmsg:
+		if p.fwdTo != nil && m.Sender == 2000 {
+			// relay: Context.Forward hands the message itself on, with the forwarder as the sender
+			c.Forward(p.fwdTo)
+			return
+		}
 		if p.countProgress {
 			atomic.AddInt64(&p.delivered, 1)
 		}
@@ -354,7 +360,7 @@ func c01Engine(c *caseCtx) (res caseResult) {
 	rc := &plainRecv{gateIn: make(chan struct{}), gateOut: make(chan struct{}), countProgress: c.mode == "engine-plain"}
 	crashy := r.Intn(3) == 0
 	pid := e.Spawn(func() actor.Receiver { return rc }, "c01", actor.WithID("t"), actor.WithInboxSize(size), actor.WithMaxRestarts(1000000), actor.WithRestartDelay(0))
-	fw := &plainRecv{}
+	fw := &plainRecv{fwdTo: pid}
 	fwPID := e.Spawn(func() actor.Receiver { return fw }, "c01", actor.WithID("fw"), actor.WithInboxSize(pick(r, 1, 8)))
 	senderPIDs := []*actor.PID{nil, actor.NewPID("local", "s/1"), nil, actor.NewPID("local", "s/2")}
 	sent := make([][]sentRec, nS+2)
@@ -394,6 +400,16 @@ func c01Engine(c *caseCtx) (res caseResult) {
 	fwN := r.Intn(30)
 	if fwN > 0 {
 		e.Send(fwPID, goMsg{N: fwN, Target: pid})
+	}
+	// ... and messages relayed with Context.Forward: the same message, in order, once, the forwarder as sender
+	relayN := r.Intn(20)
+	relayFrom := actor.NewPID("local", "origin/1")
+	for i := 0; i < relayN; i++ {
+		var sp *actor.PID
+		if i%3 != 2 {
+			sp = relayFrom
+		}
+		e.SendWithSender(fwPID, &tmsg{Sender: 2000, Seq: i}, sp)
 	}
 	close(rc.gateOut)
 	// trickle phase, with a baton chain across the sender goroutines
@@ -485,8 +501,22 @@ func c01Engine(c *caseCtx) (res caseResult) {
 	var got2 []actor.Envelope
 	fwSeen := map[int]int{}
 	lastFw := -1
+	relaySeen := map[int]int{}
+	lastRelay := -1
 	for _, env := range got {
 		t := env.Msg.(*tmsg)
+		if t.Sender == 2000 {
+			relaySeen[t.Seq]++
+			if t.Seq < lastRelay {
+				res.violate("relayed (Context.Forward): seq %d received after %d", t.Seq, lastRelay)
+			}
+			lastRelay = t.Seq
+			// (documented: Forward makes the forwarder the sender)
+			if !samePID(env.Sender, fwSelf) {
+				res.violate("relayed message %d arrived with sender %v; Context.Forward sends with the forwarding actor %v as the sender", t.Seq, env.Sender, fwSelf)
+			}
+			continue
+		}
 		if t.Sender == 1000 {
 			fwSeen[t.Seq]++
 			if t.Seq < lastFw {
@@ -503,6 +533,12 @@ func c01Engine(c *caseCtx) (res caseResult) {
 	for i := 0; i < fwN; i++ {
 		if fwSeen[i] != 1 {
 			res.violate("actor-to-actor message %d delivered %d times", i, fwSeen[i])
+			break
+		}
+	}
+	for i := 0; i < relayN; i++ {
+		if relaySeen[i] != 1 {
+			res.violate("relayed message %d delivered %d times", i, relaySeen[i])
 			break
 		}
 	}
